@@ -2,7 +2,7 @@
    (partial: the codec contract — dec (enc b) = b, one frame per Close — is compress/gzip's) *)
 From Model Require Import Str Sexp Http Template Table Curly DetectRoute Jsr311 Router Dispatch.
 From Spec Require Import DispatchSpec.
-From Proofs Require Import DispatchProofs ServeProofs.
+From Proofs Require Import DispatchProofs ServeProofs LabelProofs.
 
 (* Compressor discipline of a whole request, for both entry points, both routers and EVERY
    outcome (handler success, routing error, panic before/after output, with and without
@@ -85,3 +85,35 @@ Print Assumptions C07_refuted_servehttp_route_off.
 Example C07_dispatch_respects_route :
   comp_shape (state_of (serve O0 cfg_off EDispatch req_gz (st0 []))) = None.
 Proof. reflexivity. Qed.
+
+(* The label.  For every configuration whose scripts leave the Content-Encoding header alone ([cfg_keeps_ce]: no
+   AddHeader / Header().Del on that name in any filter, route function, recover handler or plain handler), through both
+   entry points, both routers and every outcome (success, routing error, panic with and without recovery): when the
+   response leaves with a compressor installed, its Content-Encoding header is exactly that coding's name, once; when
+   none is installed, the header is what the writer carried on arrival — the container adds no Content-Encoding. *)
+Definition C07_label_statement : Prop :=
+  forall (O : oracles) (ce0 : list str) (cfg : dcfg) (en : entry) (req : request) (s : rstate),
+    cfg_keeps_ce cfg = true -> st_comp s = None -> hvalues H_ContentEncoding (st_hdr s) = ce0 ->
+    match st_comp (state_of (serve O cfg en req s)) with
+    | Some (c, _, _) => hvalues H_ContentEncoding (st_hdr (state_of (serve O cfg en req s))) = [coding_name c]
+    | None => hvalues H_ContentEncoding (st_hdr (state_of (serve O cfg en req s))) = ce0
+    end.
+Theorem C07_label : C07_label_statement.
+Proof. exact serve_label. Qed.
+Print Assumptions C07_label.
+
+(* not vacuous: an encoded answer to a routing error (405 with Allow) written around by a filter that adds headers *)
+Example C07_label_example :
+  let cfg := {| d_table := {| t_router := Curly; t_services := [ {| s_root := L "/"; s_routes :=
+                   [ {| r_id := 1; r_method := L "GET"; r_rel := L "/a"; r_consumes := []; r_produces := [];
+                        r_conds := []; r_noct := []; r_enc := None |} ] |} ] |};
+                d_cfilters := [ {| f_id := L "c0"; f_pre := [AHeader (L "X-A") (L "1"); ADelHeader (L "X-B")]; f_pass := true;
+                                   f_post := [AWrite (L "<tail>")]; f_fresh := false; f_mw := 0 |} ];
+                d_sfilters := []; d_rfilters := []; d_handlers := [(1%Z, [AWrite (L "<body>")])];
+                d_encoding := true; d_recover := true; d_recover_script := [AStatus 500]; d_condpanic := []; d_plain := [] |} in
+  let req := {| rq_method := L "POST"; rq_path := L "/a"; rq_headers := [(H_AcceptEncoding, L "deflate")]; rq_clen := 0 |} in
+  let s := state_of (serve O0 cfg EServeHTTP req (st0 [])) in
+  cfg_keeps_ce cfg = true /\ st_status s = Some 405%Z /\
+  st_comp s = Some (Deflate, [[]; L "<tail>"], true) /\
+  hvalues H_ContentEncoding (st_hdr s) = [L "deflate"] /\ hvalues H_Allow (st_hdr s) = [L "GET"].
+Proof. vm_compute. repeat split; reflexivity. Qed.
